@@ -3,7 +3,7 @@
    every decoder's binary.Read destination are REGENERATED from source on each run (Gen/Funcs.v, Gen/Layouts.v);
    spec_layouts is the protocol's layout table. *)
 From Coq Require Import ZArith List String Bool.
-Require Import Base.GoInt Base.Sweep Spec.LayoutKinds Spec.LayoutSpec Gen.Funcs Gen.Layouts Tie.LayoutsAgree Proofs.SizeProofs.
+Require Import Base.GoInt Base.Sweep Spec.LayoutKinds Spec.LayoutSpec Gen.Funcs Gen.Layouts Spec.LayoutCheck Tie.LayoutsAgree Proofs.SizeProofs.
 Open Scope Z_scope.
 
 (* forall 65536 wire identifiers (complete sweep in the kernel): for a supported type the advertised size equals the
